@@ -346,6 +346,41 @@ Proof.
   split; vm_compute; reflexivity.
 Qed.
 
+(* truncation never raises on a legitimate request: for an accepted taxonomy, a statistics
+   file whose row map gives every leaf a row of the table (true of the writer's output:
+   c09_truncation_total_writer, and of merged files), and a list of levels that is not empty,
+   names levels of the taxonomy only, is in hierarchy order and leaves at least one level out
+   (these are the four tests the code makes before it starts; repeated names are allowed) *)
+Theorem c09_truncation_total : forall ng t new_hier c2r data,
+  validate t = true -> wf t ->
+  (forall o, In o (nodes (leaf_level t)) -> exists r, dict_get o c2r = Some r /\ (r < length data)%nat) ->
+  new_hier <> [] -> Forall (fun l => (l < length t)%nat) new_hier -> nat_sorted_b new_hier = true ->
+  (exists l, (l < length t)%nat /\ ~ In l new_hier) ->
+  exists nt nc T, truncate ng t new_hier c2r data = Ok (nt, nc, T).
+Proof. exact truncation_total. Qed.
+Print Assumptions c09_truncation_total.
+
+Theorem c09_truncation_total_writer : forall D ng t files rows p new_hier c2r data,
+  validate t = true -> wf t -> files_wf ng files -> (1 <= rows)%nat -> (1 <= p)%nat ->
+  precompute D (leaf_level t) files rows p = Ok (c2r, data) ->
+  new_hier <> [] -> Forall (fun l => (l < length t)%nat) new_hier -> nat_sorted_b new_hier = true ->
+  (exists l, (l < length t)%nat /\ ~ In l new_hier) ->
+  exists nt nc T, truncate ng t new_hier c2r data = Ok (nt, nc, T).
+Proof. exact truncation_total_writer. Qed.
+Print Assumptions c09_truncation_total_writer.
+
+(* the premises on new_hier are the ones of c09_truncation_nonvacuous2 ([0;1], [0], [2] on the
+   3-level c09_tree); an empty request fails in the model (the last drop hits a flat tree) *)
+Example c09_truncation_total_nonvacuous :
+  ([0; 1]%nat <> [] /\ Forall (fun l => (l < length c09_tree)%nat) [0; 1]%nat /\ nat_sorted_b [0; 1]%nat = true /\
+   exists l, (l < length c09_tree)%nat /\ ~ In l [0; 1]%nat) /\
+  truncate 2 c09_tree [] [(11, 0%nat); (12, 1%nat); (13, 2%nat)] (direct 8 3 2 c09_lookup c09_cells) = Err (E_TREE + E_FLAT).
+Proof.
+  split; [|vm_compute; reflexivity].
+  split; [discriminate|]. split; [repeat constructor|]. split; [reflexivity|].
+  exists 2%nat. split; [cbn; repeat constructor|]. cbn. intuition discriminate.
+Qed.
+
 (* ------------------------------------------------------------------ *)
 (* merge_precompute_files, further properties (Proofs/StatsMergeP.v).
      has_all_rows f := every leaf of f's taxonomy has a row in f's cluster_to_row (what the
